@@ -40,6 +40,10 @@ const (
 
 // String returns the string representation of this hashing algorithm.
 func (h HashingAlgorithm) String() string {
+	// values outside the supported algorithms have no name
+	if h < UnknownHashingAlgorithm || h > Keccak_256 {
+		return "UNKNOWN"
+	}
 	return [...]string{
 		"UNKNOWN",
 		"SHA2_256",
